@@ -369,7 +369,8 @@ def case_revolved(run, spec):
         N = a.get("sections")
         full = angle is None or abs(angle - 2 * math.pi) < 1e-10
         if N is None:
-            N = 32 if full else int(angle / (2 * math.pi) * 32)
+            # default: 32 sections per full turn, and never fewer than one
+            N = 32 if full else max(1, int(angle / (2 * math.pi) * 32))
         mesh = _call(J, c.revolve, np.array(prof, dtype=np.float64), angle=angle, cap=cap, sections=a.get("sections"), **kw)
         if full:
             angle = None
@@ -1147,13 +1148,11 @@ def workload(run):
             placed("cylinder", {"radius": 1.0, "height": 1.0, "sections": None}, [("none", None)])
         # ---- general revolve: profiles x angle x cap x sections
         for pname, prof in _revolve_profiles(rnd):
-            for angle in ([None, 2 * math.pi, math.pi / 3, math.pi, 1.0, 5.0] if rounds == 1 else [rnd.choice([None, rnd.uniform(0.2, 6.0)])]):
+            for angle in ([None, 2 * math.pi, math.pi / 3, math.pi, 1.0, 5.0, 0.1] if rounds == 1 else [rnd.choice([None, rnd.uniform(0.02, 6.0)])]):
                 full = angle is None or abs(angle - 2 * math.pi) < 1e-10
                 for n in ([3, 4, 5, 8, 9, None] if full else [1, 2, 3, 4, 7, None]) if rounds == 1 else [rnd.choice([3, 5, 6, 11] if full else [1, 2, 3, 6])]:
                     for cap in ([False] if full else [True, False]):
                         if not mine():
-                            continue
-                        if not full and n is None and int(angle / (2 * math.pi) * 32) < 1:
                             continue
                         if not full and n is not None and angle / n > math.pi - 0.2:
                             # one flat wedge cannot span half a turn or more: not a valid parameter set
